@@ -156,6 +156,7 @@ fn main() {
         "watchdog-case" => watchdog::case_child(&args),
         "ws-sys-case" => ws_sys::case_child(&args),
         "http-tracker" => http_sys::tracker_child(&args),
+        "http-expiry-probe" => http_sys::expiry_probe(&args),
         "deep-json" => fuzz_misc::deep_json(&args),
         "config-refusal" => http_resp::run_refusal(&args),
         "export-child" => export_crash::child(&args),
